@@ -1,5 +1,184 @@
-From Coq Require Import List Arith. Import ListNotations.
-From QV Require Import Model.GSP Model.Einsum Model.GateSim.
-Example c01_smoke : gsp_top ord_sorted [[0];[1];[2];[0;1;3]] = Some ([(2, [2]); (0, [0]); (1, [1]); (3, [0; 1; 3])], [0; 1; 2; 3]).
+(* C01 - Gate-level evolution equals the ordered product of the gates' matrices.
+   Specification: [sem] / [fsem] of Found/Base.v (apply, in circuit order, each gate's matrix on the qubits it names).
+   Everything is for an arbitrary commutative ring O, arbitrary register size, arity, placement and gate sequence. *)
+From Coq Require Import List Arith Bool Lia Permutation Sorted ZArith.
+Import ListNotations.
+From QV Require Import Found.Base Found.Lemmas Model.Einsum Model.GSP Model.GateSim.
+From QV Require Import Proofs.GSPLists Proofs.GSPSem Proofs.GSPTop Proofs.EinsumProofs Proofs.GateSimProofs Proofs.C01Top.
+
+Section C01.
+Variable O : Ops.
+Hypothesis Kring : ring_theory (k0 O) (k1 O) (kadd O) (kmul O) (ksub O) (kopp O) eq.
+
+(* ---- (1) the einsum call of _evolve_state_einsum ---- *)
+(* the output label list the Python loop builds: state labels with targets[j] |-> num_site + j *)
+Theorem einsum_labels_correct n ts : NoDup ts -> Forall (fun t => t < n) ts ->
+  lblOut n ts = Some (map (outf n ts) (seq 0 n)).
+Proof. exact (lblOut_spec n ts). Qed.
+
+(* einsum over these labels = application of the gate matrix on the target qubits; generic axis values V (a qubit
+   axis carries vb false / vb true; other axes - the ancillary one - carry anything) *)
+Theorem einsum_step_correct (V : Type) (dom : nat -> list V) (dflt : V) (vb : bool -> V) (unb : V -> bool) :
+  (forall b, unb (vb b) = b) -> forall n ts (M : mat O) (S : list V -> O) (o : list V),
+  NoDup ts -> Forall (fun t => t < n) ts -> length o = n ->
+  (forall t, In t ts -> dom t = [vb false; vb true]) ->
+  einsum2 dom dflt (gtensor O unb M (length ts)) (lblG n ts) S (lblS n) (map (outf n ts) (seq 0 n)) o =
+  ksum (map (fun y => kmul O (M (map (fun t => unb (nth t o dflt)) ts) y) (S (vupd V dflt n o ts (map vb y))))
+            (all_bits (length ts))).
+Proof. intros H. exact (einsum_core O V dom dflt vb unb H). Qed.
+
+(* one simulator step on a ket = fapp (GLOBALPHASE = scalar) *)
+Theorem ket_step_is_app nq g (v : fvec O) : wf_gate O nq g ->
+  exists w, ket_step O nq g v = Some w /\ forall r, length r = nq -> w r = gact O nq g v r.
+Proof. exact (ket_step_correct O nq g v). Qed.
+
+(* ancillary-axis variant (an operator is evolved, as compute_unitary does): every column evolves independently *)
+Theorem oper_step_is_app (A : Type) (cols : list A) nq g (X : otensor O A) : wf_gate O nq g ->
+  exists W, oper_step O A cols nq g X = Some W /\
+    forall c r, length r = nq -> col O A W c r = gact O nq g (col O A X c) r.
+Proof. exact (oper_step_correct O A cols nq g X). Qed.
+
+(* ---- QubitCircuit.run / CircuitSimulator.run on a ket: the ordered product, in any surrounding register ---- *)
+Theorem run_ket_is_sem nq c (psi : state O) (x : asg) : Forall (wf_gate O nq) c ->
+  exists w, ket_run O nq c (fun r => psi (overlay nq r x)) = Some w /\
+    forall r, length r = nq -> w r = sem (circ_of c) psi (overlay nq r x).
+Proof. exact (run_ket_correct O Kring nq c psi x). Qed.
+
+Theorem run_ket_is_fsem nq c : Forall (wf_gate O nq) c -> forall v : fvec O,
+  exists w, ket_run O nq c v = Some w /\ forall r, length r = nq -> w r = fsem nq (circ_of c) v r.
+Proof. exact (ket_run_correct O Kring nq c). Qed.
+
+(* step-by-step simulation = run *)
+Theorem run_step_agree nq c1 c2 (v : fvec O) :
+  ket_run O nq (c1 ++ c2) v = match ket_run O nq c1 v with Some w => ket_run O nq c2 w | None => None end.
+Proof. exact (ket_run_app O nq c1 c2 v). Qed.
+
+(* compute_unitary: column a of the result = the circuit applied to basis vector a *)
+Theorem compute_unitary_is_sem nq c : Forall (wf_gate O nq) c ->
+  exists W, oper_run O (list bool) (all_bits nq) nq c (id_tensor O) = Some W /\
+    forall a r, length r = nq -> col O (list bool) W a r = fsem nq (circ_of c) (delta a) r.
+Proof. exact (compute_unitary_correct O Kring nq c). Qed.
+
+(* ---- propagators ---- *)
+(* product of propagators(expand=True) (left_to_right) acts as the circuit *)
+Theorem propagators_expand_is_sem N c (v : fvec O) r : length r = N ->
+  dmv N (gsp_expanded N (map (prop_expand N) c)) v r = fsem N (circ_of c) v r.
+Proof. exact (propagators_expand_correct O Kring N c v r). Qed.
+
+(* propagators(expand=False): each returned matrix on its index list acts as the gate (GLOBALPHASE: full-size scalar
+   matrix on all N qubits) *)
+Theorem propagators_compact_is_gate N g (v : fvec O) r : length r = N ->
+  fapp N (fst (prop_compact N g)) (snd (prop_compact N g)) v r = gact O N g v r.
+Proof. exact (propagators_compact_correct O Kring N g v r). Qed.
+
+(* ---- density matrices (cj = any additive, multiplicative map: complex conjugation) ---- *)
+Section Conj.
+Variable cj : O -> O.
+Hypothesis cj_add : forall a b, cj (kadd O a b) = kadd O (cj a) (cj b).
+Hypothesis cj_mul : forall a b, cj (kmul O a b) = kmul O (cj a) (cj b).
+Hypothesis cj_0 : cj (k0 O) = k0 O.
+
+(* rho = |psi><psi|  ->  density-matrix run = |c psi><c psi| *)
+Theorem ket_dm_agree N c rho v : pure_on O cj N rho v -> pure_on O cj N (dm_run cj N c rho) (fsem N (circ_of c) v).
+Proof. exact (GateSimProofs.ket_dm_agree O Kring cj cj_add cj_mul cj_0 N c rho v). Qed.
+
+(* any rho: the run conjugates with the product of the expanded propagators *)
+Theorem dm_run_is_conjugation N c (acc rho : dmat O) :
+  dm_run cj N c (conjby O cj N acc rho) =
+  conjby O cj N (fold_left (fun a U => dmm N U a) (map (prop_expand N) c) acc) rho.
+Proof. exact (dm_run_conj O Kring cj cj_add cj_mul cj_0 N c acc rho). Qed.
+End Conj.
+
+(* ---- compact product (gate_sequence_product(..., expand=True)) ---- *)
+Variable G : nat -> mat O.
+Theorem gsp_correct (l : list (list nat)) c inds : gsp_top ord_sorted l = Some (c, inds) ->
+  forall psi : state O, sem (den O G (fplace inds c)) psi = sem (den O G (number l)) psi.
+Proof. exact (GSPTop.gsp_correct O Kring G l c inds). Qed.
+
+Theorem gsp_correct_any_ascending_order ord (l : list (list nat)) c inds : ord_asc ord -> gsp_top ord l = Some (c, inds) ->
+  forall psi : state O, sem (den O G (fplace inds c)) psi = sem (den O G (number l)) psi.
+Proof. exact (gsp_correct_asc O Kring G ord l c inds). Qed.
+
+(* ---- user gates ---- *)
+Variable Arg : Type.
+Variable user : list (String.string * uentry O Arg).
+Variable lib : pgate Arg -> option (mat O).
+Theorem user_gate_with_controls_refused g e cs :
+  assoc_s (pg_name Arg g) user = Some e -> pg_controls Arg g = Some cs -> get_gate_unitary O Arg user lib g = None.
+Proof. exact (user_gate_controls_refused O Arg user lib g e cs). Qed.
+
+Theorem user_gate_lookup_forms g e : assoc_s (pg_name Arg g) user = Some e -> pg_controls Arg g = None ->
+  get_gate_unitary O Arg user lib g =
+  match e with UFun0 M => Some M | UFun1 f => Some (f (pg_arg Arg g)) | UOper M => Some M | UFunMany | UOther => None end.
+Proof. exact (user_gate_lookup O Arg user lib g e). Qed.
+End C01.
+
+Print Assumptions einsum_labels_correct.
+Print Assumptions einsum_step_correct.
+Print Assumptions ket_step_is_app.
+Print Assumptions oper_step_is_app.
+Print Assumptions run_ket_is_sem.
+Print Assumptions run_ket_is_fsem.
+Print Assumptions run_step_agree.
+Print Assumptions compute_unitary_is_sem.
+Print Assumptions propagators_expand_is_sem.
+Print Assumptions propagators_compact_is_gate.
+Print Assumptions ket_dm_agree.
+Print Assumptions dm_run_is_conjugation.
+Print Assumptions gsp_correct.
+Print Assumptions gsp_correct_any_ascending_order.
+Print Assumptions user_gate_with_controls_refused.
+Print Assumptions user_gate_lookup_forms.
+
+(* the unchanged code is wrong for an admissible (permutation) set order *)
+Theorem gsp_refuted_unsorted :
+  exists ord, (forall a b, Permutation (ord a b) (dedup (a ++ b))) /\
+  exists l c inds, gsp_top ord l = Some (c, inds) /\
+  exists (G : nat -> mat GI) psi x, sem (den GI G (fplace inds c)) psi x <> sem (den GI G (number l)) psi x.
+Proof. exact GSPTop.gsp_refuted_unsorted. Qed.
+Print Assumptions gsp_refuted_unsorted.
+
+(* ---- non-vacuity: the hypotheses are satisfiable by concrete non-trivial inputs ---- *)
+Example ring_inhabited : ring_theory (k0 GI) (k1 GI) (kadd GI) (kmul GI) (ksub GI) (kopp GI) eq.
+Proof. exact GI_ring. Qed.
+Print Assumptions ring_inhabited.
+
+Example conj_inhabited : (forall a b, gi_conj (gi_add a b) = gi_add (gi_conj a) (gi_conj b)) /\
+  (forall a b, gi_conj (gi_mul a b) = gi_mul (gi_conj a) (gi_conj b)) /\ gi_conj (0, 0)%Z = (0, 0)%Z.
+Proof. exact (conj gi_conj_add (conj gi_conj_mul gi_conj_0)). Qed.
+Print Assumptions conj_inhabited.
+
+(* a well-formed 3-qubit circuit: a two-qubit gate on (2, 0), a global phase, a one-qubit gate on 1 *)
+Example wf_inhabited : Forall (wf_gate GI 3) [@GMat GI mid [2; 0]; @GPhase GI (0, 1)%Z; @GMat GI Xm [1]].
+Proof.
+  repeat constructor; simpl; try lia; intro H; repeat (destruct H as [H|H]; try discriminate); try contradiction.
+Qed.
+Print Assumptions wf_inhabited.
+
+Example ket_run_inhabited : exists w, ket_run GI 2 [@GMat GI Xm [1]; @GPhase GI (0, 1)%Z] (@delta GI [false; false]) = Some w /\
+  map w (all_bits 2) = [(0, 0)%Z; (0, 1)%Z; (0, 0)%Z; (0, 0)%Z] :> list gi.
+Proof. eexists. split; [reflexivity| vm_compute; reflexivity]. Qed.
+Print Assumptions ket_run_inhabited.
+
+Example gsp_inhabited : gsp_top ord_sorted [[0]; [1]; [2]; [0; 1; 3]] =
+  Some ([(2, [2]); (0, [0]); (1, [1]); (3, [0; 1; 3])], [0; 1; 2; 3]).
+Proof. exact gsp_example_1. Qed.
+Print Assumptions gsp_inhabited.
+
+Example gsp_recursive_branch_inhabited : gsp_top ord_sorted [[5]; [3]; [5; 3]; [3]; [5]] =
+  Some ([(0, [1]); (1, [0]); (2, [1; 0]); (3, [0]); (4, [1])], [3; 5]).
+Proof. exact gsp_example_2. Qed.
+Print Assumptions gsp_recursive_branch_inhabited.
+
+Example gsp_ten_qubits_inhabited : exists c, gsp_top ord_sorted [[0]; [1]; [2]; [3]; [4]; [5]; [6]; [7]; [8]; [9]; [8; 1]] =
+  Some (c, [0; 1; 2; 3; 4; 5; 6; 7; 8; 9]).
+Proof. exact gsp_example_big. Qed.
+Print Assumptions gsp_ten_qubits_inhabited.
+
+Example ord_sorted_is_ascending : ord_asc ord_sorted.
+Proof. exact ord_sorted_asc. Qed.
+Print Assumptions ord_sorted_is_ascending.
+
+Example einsum_labels_inhabited : einsum_labels 4 [2; 0] = Some ([4; 5; 2; 0], [0; 1; 2; 3], [5; 1; 4; 3]).
 Proof. vm_compute. reflexivity. Qed.
-Print Assumptions c01_smoke.
+Print Assumptions einsum_labels_inhabited.
